@@ -3,4 +3,4 @@ from . import pinned_probe
 
 
 def run(seed=0):
-    return [r for r in pinned_probe.run(seed) if r["key"].startswith("PINNED vjp")]
+    return [r for r in pinned_probe.run(seed) if r["key"].startswith("PINNED vjp")] + pinned_probe.run_linear_extreme(seed)
